@@ -46,6 +46,22 @@ Theorem C14_recovery_sets_are_dominator_follow_sets :
           /\ mem s (get fi (rid_of op)) = false /\ mem s (get fo (rid_of op)) = false).
 Proof. exact calc_recovery_spec. Qed.
 
+(* second clause: whatever may follow the start body - the end-of-input marker and the part end markers - is
+   in the recovery set of every repetition/option unless it can start or follow the loop body, so no loop is
+   left without an arm for the end of input *)
+Theorem C14_end_of_input_is_recovered_or_followed :
+  forall g fi fo used fuel order rc d pg sb,
+  body_of g (g_start g) = Some sb ->
+  calc_recovery g fi fo used fuel order = Some (rc, d, pg) ->
+  let start := rid_of sb in
+  let nns := order (map fst pg) in
+  graph_ok pg start nns = true -> dom_fixed pg start d = true -> nodup_b nns = true ->
+  forall n op, In n nns -> loop_body g n = Some op ->
+  forall s, mem s (get fo start) = true ->
+    mem s (get rc n) = true \/ mem s (get fi (rid_of op)) = true \/ mem s (get fo (rid_of op)) = true.
+Proof. exact end_of_input_recovered. Qed.
+
 Print Assumptions C14_dominators_exact.
 Print Assumptions C14_recovery_sets_are_dominator_follow_sets.
 Print Assumptions C14_dominators_exact_without_certificate.
+Print Assumptions C14_end_of_input_is_recovered_or_followed.
